@@ -24,7 +24,7 @@ var c10Ops = []c10Op{
 	{"*", 7}, {"×", 7}, {"/", 7}, {"÷", 7}, {"//", 7}, {"%", 7},
 }
 
-var c10Shapes = []string{"%s", "`2`", "%s.b", "%s[0]", "%s[*].b", "(%s)", "%s.*", "%s[?@]", "%s[1:]", "%s[]", "%s[*]", "%s[].b", "abs(%s)", "[%s][0]", "[0]", "[1:]", "[-1]", "@", "[*]", "*"}
+var c10Shapes = []string{"%s", "`2`", "%s.b", "%s[0]", "%s[*].b", "(%s)", "%s.*", "%s[?@]", "%s[1:]", "%s[]", "%s[*]", "%s[].b", "abs(%s)", "[%s][0]", "[0]", "[1:]", "[-1]", "@", "[*]", "*", "%s.\"b\"", "%s[1:].b", "%s[:2].b", "%s[::-1].b", "%s[0].\"b\"", "\"b\"", "%s[?b].\"b\"", "$.%s", "%s.[b][0]", "%s.{k: b}.k"}
 var c10Prefixes = []string{"", "!", "-", "−", "+"}
 
 // c10Paren fully parenthesises operands[0] ops[0] operands[1] ... by the
